@@ -103,6 +103,9 @@ func runC05(r *Run) {
 		out.Cap = []int{1 << 30, 4096, 512, 64}[t.Draw(4)]
 		out.WChunk = t.Weighted(4, 1, 2, 2, 2)
 		out.OpBudget = 2500
+		if t.Pct(30) {
+			out.DelayPct, out.Delays = 5, []time.Duration{time.Millisecond, 50 * time.Millisecond, time.Second}
+		}
 		defl, nct := o.Deflate()
 		neg = Negotiated{Deflate: defl, CNCT: nct, SNCT: nct}
 		b.SetReadLimit(-1)
